@@ -182,6 +182,20 @@ SMALL = {
         "marks": {"em": {}},
     },
     # S4 family: mark configurations
+    # ND: content expressions that are not deterministic on a node type (the same type can match at two places
+    # of the expression with other types in between): the compiled matcher must merge the alternatives
+    "nd": {
+        "nodes": {
+            "doc": {"content": "h? block+"},
+            "p": {"content": "inline*", "group": "block"},
+            "h": {"content": "inline*", "group": "block"},
+            "sec": {"content": "block* p", "group": "block"},
+            "lst": {"content": "(p | h)* p h?", "group": "block"},
+            "text": {"group": "inline"},
+            "br": {"inline": True, "group": "inline"},
+        },
+        "marks": {"em": {}},
+    },
     "s4": {
         "nodes": {
             "doc": {"content": "(para | plain)+"},
